@@ -73,6 +73,9 @@ pub mod __fqsim {
     pub const TASK_EXIT: u32 = 3;
     pub const TASK_DONE: u32 = 4;
     pub const TASK_RAND: u32 = 5;
+    ///   TASK_KEY      -> a value fixed for the whole episode (0 for a non-task thread); used to
+    ///                    derive per-episode choices that must not consume the scheduler's PRNG
+    pub const TASK_KEY: u32 = 6;
 
     static CTL: AtomicUsize = AtomicUsize::new(0);
 
